@@ -522,7 +522,9 @@ func (g *Gen) handleOp() bool {
 	case 6:
 		if !h.canW {
 			// a write refused by a read-only handle changes nothing, the handle's offset included
-			if !h.canR || !r.Chance(1, 2) {
+			// (with a non-empty payload: os.File.WriteAt loops over the bytes and so never asks the
+			// kernel about an empty one, which then "succeeds" on a read-only descriptor)
+			if !h.canR || len(pay) == 0 || !r.Chance(1, 2) {
 				return false
 			}
 			g.emit(-1, "HWriteAt %d %s %d", s, hx(pay), r.Range(0, 12))
